@@ -768,6 +768,19 @@ def _extern_module(E, name):
     if name == 'datetime':
         from . import aio
         return aio.make_datetime_module(E)
+    if name == 'itertools':
+        def islice(it, *a):
+            xs = concrete_iter(E, it)
+            if not all(isinstance(x, (int, type(None))) for x in a):
+                raise Unsupported('itertools.islice with symbolic bounds')
+            return xs[slice(*a)]
+
+        def chain(*its):
+            out = []
+            for it in its:
+                out.extend(concrete_iter(E, it))
+            return out
+        return ExternModule('itertools', dict(islice=Builtin('itertools.islice', islice), chain=Builtin('itertools.chain', chain)))
     if name == 'collections':
         return ExternModule('collections', dict(deque=_builtin_class('deque')))
     if name == 'functools':
